@@ -2,9 +2,10 @@ SPECIFICATION Spec
 CONSTANTS
   MaxDepth = 4
   Variant = ""
-  Fams = {"pos", "vars", "tabfn", "tabmain", "redir", "sub"}
+  Fams = {"pos", "vars", "tabfn", "tabmain", "redir", "sub", "ns"}
   LB = 2
   LM = 1
+  Wide = {}
   Stepwise = TRUE
 INVARIANTS TypeOK BodyStable ListRoundTrip
 PROPERTIES P_CallRestores P_ReadOnlyStable P_DefineInert P_OnlyChangers P_UnsetAll P_SubContained P_ObsFaithful P_CallRedirects
